@@ -66,10 +66,12 @@ def check(ctx):
             cn = call_name(n.value)
             if cn and cn.startswith("_track"):
                 covered[n.targets[0].attr] = (cn, n)
-        if isinstance(n, ast.Assign) and isinstance(n.value, ast.Dict) and any(isinstance(t, ast.Name) and t.id == "modifier_map" for t in n.targets):
+        # the name -> wrapper table (whatever the local is called): a dict display {"<method name>": _track_<x>, ...}
+        if isinstance(n, ast.Assign) and isinstance(n.value, ast.Dict) and n.value.keys and all(
+                isinstance(k, ast.Constant) and isinstance(k.value, str) and isinstance(v, ast.Name) and v.id.startswith("_track")
+                for k, v in zip(n.value.keys, n.value.values)):
             for k, v in zip(n.value.keys, n.value.values):
-                if isinstance(k, ast.Constant) and isinstance(v, ast.Name):
-                    covered[k.value] = (v.id, n)
+                covered[k.value] = (v.id, n)
     if not covered:
         raise AnalysisError("simulator_tracking: no wrapper assignments / modifier_map found")
     for name, f in sorted(entry.items()):
